@@ -181,3 +181,39 @@ Definition sl_of {A} (eqA : A -> A -> bool) (addr : tid -> A) : tid -> tid -> bo
 
 (* the reference semantics: tape identity *)
 Definition sl_id : tid -> tid -> bool := Nat.eqb.
+
+(* ---------------------------------------------------------------- two clients, one heap of tapes
+   "No result depends on previously executed unrelated library calls": two independent pieces of
+   client code (owner true / owner false), each with its OWN registers (its local variables),
+   executed in some interleaving against the SAME collection of tapes.  The registers of the
+   single-client machine above are exactly such local variables, so each owner's instructions run
+   through machine_step on (shared tapes, own registers). *)
+Section Two.
+Context {R : Type} (ops : numops R).
+Variable sl : tid -> tid -> bool.
+
+Record st2 := mkSt2 { tapes2 : list (tape R); regsL : list (rcd R); regsR : list (rcd R) }.
+
+Definition step2 (s : st2) (oi : bool * instr R) : st2 * event R :=
+  if fst oi then
+    let '(s', e) := machine_step ops sl (mkSt (tapes2 s) (regsL s)) (snd oi) in
+    (mkSt2 (tapes s') (regs s') (regsR s), e)
+  else
+    let '(s', e) := machine_step ops sl (mkSt (tapes2 s) (regsR s)) (snd oi) in
+    (mkSt2 (tapes s') (regsL s) (regs s'), e).
+
+Fixpoint run2 (s : st2) (p : list (bool * instr R)) : st2 * list (bool * event R) :=
+  match p with
+  | [] => (s, [])
+  | oi :: rest =>
+      let '(s', e) := step2 s oi in
+      let '(s'', es) := run2 s' rest in
+      (s'', (fst oi, e) :: es)
+  end.
+End Two.
+
+Arguments st2 R : clear implicits.
+
+(* what one owner contributed to / saw of an interleaving *)
+Definition proj {X} (o : bool) (l : list (bool * X)) : list X :=
+  map snd (filter (fun x => Bool.eqb (fst x) o) l).
